@@ -73,12 +73,18 @@ func runC10(c *Ctx) {
 	nmse := c.P.Func("buffer", "NewMessageSizeExceeded")
 	if rum != nil && reset != nil && nmse != nil {
 		R.Analysed(fname(rum))
-		l := core.NewLin(c.P, rum, mods, sum)
+		// the accept step may live in a method tail-called with the decoded size: the guard rules apply there
 		var sizeV ssa.Value
-		fl := c.fills(rum)
-		if len(fl) == 1 {
-			sizeV = fl[0].size
+		var fl []fill
+		if acc, f, _, okAcc := c.acceptStep(rum); okAcc {
+			if acc != rum {
+				R.Analysed(fname(acc))
+				rum = acc
+			}
+			fl = []fill{f}
+			sizeV = f.size
 		}
+		l := core.NewLin(c.P, rum, mods, sum)
 		mts := maxTerms(l)
 		if sizeV == nil || len(mts) == 0 {
 			R.Fail("C10.R1", "ReadUntypedMsg:shape", c.atFn(rum), "ReadUntypedMsg compares the declared size with the limit", "size or limit not found")
@@ -250,7 +256,11 @@ func runC10(c *Ctx) {
 	}
 
 	// ---------- R3: what is skipped
-	if h := c.mustFunc("C10.R3", "wire", "handleMessageSizeExceeded"); h != nil {
+	h, _ := c.exceededRecovery()
+	if h == nil {
+		R.Fail("C10.R3", "anchor:recovery", "-", "a function of package wire skips a rejected body with Reader.Slurp", "no Slurp call found in package wire outside the COPY readers")
+	}
+	if h != nil {
 		R.Analysed(fname(h))
 		n := 0
 		for _, ci := range core.Calls(h) {
@@ -265,7 +275,7 @@ func runC10(c *Ctx) {
 					for _, r := range core.Referrers(a) {
 						if st, ok := r.(*ssa.Store); ok {
 							if ex, ok := st.Val.(*ssa.Extract); ok {
-								if call, ok := ex.Tuple.(*ssa.Call); ok && core.FuncIs(core.StaticCallee(call), pkBuffer, "UnwrapMessageSizeExceeded") && call.Call.Args[0] == ssa.Value(h.Params[2]) {
+								if call, ok := ex.Tuple.(*ssa.Call); ok && core.FuncIs(core.StaticCallee(call), pkBuffer, "UnwrapMessageSizeExceeded") {
 									okSrc = true
 								}
 							}
@@ -278,9 +288,9 @@ func runC10(c *Ctx) {
 					}
 				}
 			}
-			R.Check(okSrc, "C10.R3", "handleMessageSizeExceeded:skips-declared-size", c.at(ci), "exactly the rejected body size is skipped", "Slurp(unwrapped.Size) of the error being handled", "the amount skipped is not the Size recorded in the size-exceeded error")
+			R.Check(okSrc, "C10.R3", "recovery:skips-declared-size", c.at(ci), "exactly the rejected body size is skipped", "Slurp(unwrapped.Size) of the error being handled", "the amount skipped is not the Size recorded in the size-exceeded error")
 		}
-		R.Floor("C10.R3", "Slurp calls in handleMessageSizeExceeded", n, 1)
+		R.Floor("C10.R3", "Slurp calls in the recovery step", n, 1)
 	}
 	if nmse != nil {
 		ok := false
@@ -334,16 +344,20 @@ func runC10(c *Ctx) {
 		}
 	}
 	// ---------- R5
-	if h := c.P.Func("wire", "handleMessageSizeExceeded"); h != nil {
+	if h, _ := c.exceededRecovery(); h != nil {
 		var who []string
 		ok := true
-		for _, site := range c.P.CallSitesOf(h) {
-			who = append(who, fkey(site.Parent()))
-			if site.Parent().Name() != "consumeSingleCommand" {
-				ok = false
+		if h.Name() == "consumeSingleCommand" {
+			who = append(who, "the command loop itself")
+		} else {
+			for _, site := range c.P.CallSitesOf(h) {
+				who = append(who, fkey(site.Parent()))
+				if site.Parent().Name() != "consumeSingleCommand" {
+					ok = false
+				}
 			}
 		}
-		R.Check(ok && len(who) > 0, "C10.R5", "handleMessageSizeExceeded:only-in-command-loop", c.atFn(h), "recovery from an oversized message happens only inside an established session; during start-up and authentication the error ends the connection", sprintf("callers %v", who), sprintf("callers %v: an oversized start-up / authentication message would be skipped and the connection kept", who))
+		R.Check(ok && len(who) > 0, "C10.R5", "recovery:only-in-command-loop", c.atFn(h), "recovery from an oversized message happens only inside an established session; during start-up and authentication the error ends the connection", sprintf("callers %v", who), sprintf("callers %v: an oversized start-up / authentication message would be skipped and the connection kept", who))
 	}
 	c.c03ErrorEdges()
 	for _, o := range R.Obls {
@@ -398,13 +412,14 @@ func (c *Ctx) sizeIsHeaderMinus4(rule string) {
 	if rum == nil {
 		return
 	}
-	fl := c.fills(rum)
-	if len(fl) != 1 {
+	_, f0, outerSize, okAcc := c.acceptStep(rum)
+	if !okAcc {
 		R.Fail(rule, "ReadMsgSize:size-is-unsigned-header-minus-4", c.atFn(rum), "the body size is the unsigned 32-bit header minus 4", "the reset + ReadFull step of ReadUntypedMsg was not found")
 		return
 	}
+	fl := []fill{f0}
 	l := core.NewLin(c.P, rum, c.modSets(), c.summaries(rule))
-	R.Check(c.headerSizeExpr(l, fl[0].size, 0), rule, "ReadMsgSize:size-is-unsigned-header-minus-4", c.at(fl[0].site), "the body size is the unsigned 32-bit header minus 4: declared lengths 0..3 become negative (rejected), large lengths are never wrapped or truncated", "E-LIN normal form: Uint32(header[:]) - 4 through value-preserving conversions", "the size is not Uint32(header) - 4 through value-preserving conversions: huge declared lengths wrap (e.g. become negative and skip nothing)")
+	R.Check(c.headerSizeExpr(l, outerSize, 0), rule, "ReadMsgSize:size-is-unsigned-header-minus-4", c.at(fl[0].site), "the body size is the unsigned 32-bit header minus 4: declared lengths 0..3 become negative (rejected), large lengths are never wrapped or truncated", "E-LIN normal form: Uint32(header[:]) - 4 through value-preserving conversions", "the size is not Uint32(header) - 4 through value-preserving conversions: huge declared lengths wrap (e.g. become negative and skip nothing)")
 }
 
 // c10Slurp: chunked skipping.
@@ -425,7 +440,10 @@ func (c *Ctx) slurpExact(rule string) {
 		loop = l
 	}
 	h := loop.Header
+	// the bytes still to skip: a counter initialised from the size parameter and counted down (remaining), or a
+	// counter initialised to 0 and counted up to size (remaining = size - counter)
 	var rem *ssa.Phi
+	countUp := false
 	for _, in := range h.Instrs {
 		if ph, ok := in.(*ssa.Phi); ok {
 			for _, e := range ph.Edges {
@@ -436,18 +454,35 @@ func (c *Ctx) slurpExact(rule string) {
 		}
 	}
 	if rem == nil {
-		R.Fail(rule, "Slurp:remaining", c.at(h.Instrs[0]), "Slurp tracks the bytes still to skip, starting from its argument", "no loop variable initialised from the size parameter")
+		for _, in := range h.Instrs {
+			if ph, ok := in.(*ssa.Phi); ok {
+				for i, e := range ph.Edges {
+					if k, isK := core.ConstInt(e); isK && k == 0 && !loop.Body[h.Preds[i]] {
+						rem, countUp = ph, true
+					}
+				}
+			}
+		}
+	}
+	if rem == nil {
+		R.Fail(rule, "Slurp:remaining", c.at(h.Instrs[0]), "Slurp tracks the bytes still to skip, starting from its argument", "no loop variable initialised from the size parameter (or from 0 and compared with it)")
 		return
 	}
+	sizeT := core.Term{K: core.TVal, V: sl.Params[1]}
+	remT := core.Term{K: core.TVal, V: rem}
 	// guard: remaining > 0
 	okGuard := false
 	if iff, ok := h.Instrs[len(h.Instrs)-1].(*ssa.If); ok {
 		l := core.NewLin(c.P, sl, c.modSets(), c.summaries(rule))
-		if c.canon(l, iff.Cond, true) == canonLE(core.Zero, core.Term{K: core.TVal, V: rem}, -1) && loop.Body[h.Succs[0]] {
+		want := canonLE(core.Zero, remT, -1)
+		if countUp {
+			want = canonLE(remT, sizeT, -1) // counter < size
+		}
+		if c.canon(l, iff.Cond, true) == want && loop.Body[h.Succs[0]] {
 			okGuard = true
 		}
 	}
-	R.Check(okGuard, rule, "Slurp:loops-while-remaining", c.at(h.Instrs[len(h.Instrs)-1]), "Slurp continues exactly while bytes remain (remaining > 0)", "header condition 0 - remaining <= -1 enters the body", "the loop condition is not remaining > 0")
+	R.Check(okGuard, rule, "Slurp:loops-while-remaining", c.at(h.Instrs[len(h.Instrs)-1]), "Slurp continues exactly while bytes remain (remaining > 0)", "header condition 0 - remaining <= -1 (or counter - size <= -1) enters the body", "the loop condition is not remaining > 0")
 	// decrement by the bytes read
 	okDec := false
 	var sf *fill
@@ -461,18 +496,39 @@ func (c *Ctx) slurpExact(rule string) {
 		if !loop.Body[h.Preds[i]] {
 			continue
 		}
-		if sub, ok := e.(*ssa.BinOp); ok && sub.Op == token.SUB && sub.X == ssa.Value(rem) && sf != nil && sub.Y == sf.n {
-			okDec = true
+		if upd, ok := e.(*ssa.BinOp); ok && sf != nil {
+			if !countUp && upd.Op == token.SUB && upd.X == ssa.Value(rem) && upd.Y == sf.n {
+				okDec = true
+			}
+			if countUp && upd.Op == token.ADD && ((upd.X == ssa.Value(rem) && upd.Y == sf.n) || (upd.Y == ssa.Value(rem) && upd.X == sf.n)) {
+				okDec = true
+			}
 		}
 	}
-	R.Check(okDec, rule, "Slurp:subtracts-bytes-read", c.at(h.Instrs[0]), "each iteration subtracts exactly the number of bytes io.ReadFull consumed", "remaining = remaining - n with n the ReadFull result", "the loop variable is not decremented by the ReadFull byte count")
+	R.Check(okDec, rule, "Slurp:subtracts-bytes-read", c.at(h.Instrs[0]), "each iteration accounts for exactly the number of bytes io.ReadFull consumed", "remaining = remaining - n (or counter = counter + n) with n the ReadFull result", "the loop variable is not updated by the ReadFull byte count")
+	// the term that stands for the bytes still to skip inside the loop body
+	remaining := remT
+	if countUp {
+		found := false
+		for b := range loop.Body {
+			for _, in := range b.Instrs {
+				if sub, ok := in.(*ssa.BinOp); ok && sub.Op == token.SUB && sub.X == ssa.Value(sl.Params[1]) && sub.Y == ssa.Value(rem) {
+					remaining, found = core.Term{K: core.TVal, V: sub}, true
+				}
+			}
+		}
+		if !found {
+			R.Fail(rule, "Slurp:chunk-bounds", c.at(h.Instrs[0]), "each chunk is between 1 and min(remaining, limit) bytes", "the loop does not compute size - counter: the relation between the chunk and the bytes that remain is undecided")
+			return
+		}
+	}
 	// chunk <= limit and <= remaining: lifted preconditions of reset are proved by C04.R2 / panicFreedom; here: chunk <= remaining
 	if sf != nil {
 		for _, ci := range []ssa.Instruction{sf.site} {
 			l := core.NewLin(c.P, sl, c.modSets(), c.summaries(rule))
 			arg := sf.size
 			t, off := l.Expr(arg)
-			okRem := l.Prove(ci, t, core.Term{K: core.TVal, V: rem}, -off)
+			okRem := l.Prove(ci, t, remaining, -off)
 			okMax := false
 			for _, m := range maxTerms(l) {
 				if l.Prove(ci, t, m, -off) {
